@@ -32,6 +32,7 @@ type Oblig struct {
 	Hyp    Term
 	Goal   Term
 	Cover  bool // expect sat of Hyp (reachability); Goal unused
+	Pre    bool // status decided at generation time (no solver query)
 	Inline string
 	// results
 	Status  string // discharged | failed-sat | failed-unknown | cover-ok | cover-dead
@@ -101,6 +102,7 @@ type FT struct {
 	topCon  *Contract
 	label   string // obligation name prefix when fn is nil (lemmas)
 	inQuant int
+	seenLens []Term // lengths of slices that exist as data (parameters, slices read from memory)
 	assignItems []*assignItem
 }
 
@@ -203,10 +205,23 @@ func (ft *FT) load(m *Mem, lv *LV) *Val {
 			if l.Kind == 'l' && l.Lift == 0 && i+1 < len(ls) && ls[i+1].Kind == 'c' {
 				cp := v.L[i+1]
 				v.L[i] = ft.rangedDef("ldlen", v.L[i], func(x Term) Term { return mkAnd(uLe(x, cp), uLe(cp, idxInt(maxLen))) })
+				ft.noteLen(v.L[i])
 			}
 		}
 	}
 	return v
+}
+
+func (ft *FT) noteLen(t Term) {
+	if len(ft.seenLens) >= 12 {
+		return
+	}
+	for _, x := range ft.seenLens {
+		if x.T == t.T {
+			return
+		}
+	}
+	ft.seenLens = append(ft.seenLens, t)
 }
 
 func inTypeRange2(l Leaf) func(Term) Term {
